@@ -72,10 +72,12 @@ def gen_spelled(rng: random.Random, depth: int):
 def strip_via(t):
     """The same tree with every spelled extract written as a plain one (what the model and the reference are given)."""
     if isinstance(t, list):
+        if any(x == "spawn" for x in t):
+            t = [x for x in t if x != "spawn"]
         if t and t[0] == "childsame":
-            return ["child", t[1], [[strip_via(x) for x in h] for h in t[2]]]
+            return ["child", t[1], [[strip_via(x) for x in h if x != "spawn"] for h in t[2]]]
         if t and t[0] == "extract":
-            return ["extract", t[1], t[2], [[strip_via(x) for x in h] for h in t[3]]]
+            return ["extract", t[1], t[2], [[strip_via(x) for x in h if x != "spawn"] for h in t[3]]]
         return [strip_via(x) for x in t]
     return t
 
@@ -259,6 +261,18 @@ class Probe:
         if a == "observe":
             self.log.append("obs" + self.observe())
             return
+        if a == "spawn":
+            # a worker thread started from here with a COPY of the current contextvars context (what asyncio.to_thread and
+            # trio.to_thread do): it is outside any extraction -- the options belong to the thread that called extract
+            import contextvars
+
+            box: List[str] = []
+            ctx = contextvars.copy_context()
+            t = threading.Thread(target=lambda: ctx.run(lambda: box.append(self.observe())))
+            t.start()
+            t.join(10)
+            self.log.append("spawn" + (box[0] if box else "(?)"))
+            return
         if a == "raise":
             raise self.HookError("injected")
         if a == "abort":
@@ -421,7 +435,7 @@ class C13(PropCheck):
             "interleavings of their hook actions; non-trivial = the tree contains a nested API call or a raise; "
             "distinct = distinct tree (and schedule)")
     manifest = {
-        "text": "Lean: C13_push_sites (read off the source on every run: extract and extract_outermost hand both options to push unchanged, fill_context pushes (True, False), push restores in a finally around its yield), C13_wrapper_sites (likewise read off the source: every extract(...) call inside extract_since and extract_until hands on both of its own option arguments), C13_gcm_keeps_options (beneath a generator-based manager the options are still the enclosing extraction's), C13_abort_unwinds / C13_restore_also_on_abort / C13_catch_sees_outer (a BaseException raised by a hook is not contained by the extraction, unwinds through every enclosing one, and every push still restores: a hook that catches it sees the outer options again). Lean theorems over a call-tree model of ExtractOptions.push / extract / extract_outermost / extract_child / fill_context: C13_restore (every call, at any nesting depth and also when it ends in an exception, leaves the thread's options as it found them), C13_observed (every hook observation equals the options of the innermost enclosing extraction), C13_child_guard, C13_stub*, C13_fill_*, and C13_threads (frame rule: under every interleaving of any number of threads each thread's option cell and read history equal its solo run). The model is tied to /repo by executing generated call trees and forced thread interleavings against the real API and diffing hook-visible observations with the model's.",
+        "text": "Lean: C13_push_sites (read off the source on every run: extract and extract_outermost hand both options to push unchanged, fill_context pushes (True, False), push restores in a finally around its yield), C13_options_thread_local (the options object is a threading.local with one module-level instance: re-read from the source), C13_wrapper_sites (likewise read off the source: every extract(...) call inside extract_since and extract_until hands on both of its own option arguments), C13_gcm_keeps_options (beneath a generator-based manager the options are still the enclosing extraction's), C13_abort_unwinds / C13_restore_also_on_abort / C13_catch_sees_outer (a BaseException raised by a hook is not contained by the extraction, unwinds through every enclosing one, and every push still restores: a hook that catches it sees the outer options again). Lean theorems over a call-tree model of ExtractOptions.push / extract / extract_outermost / extract_child / fill_context: C13_restore (every call, at any nesting depth and also when it ends in an exception, leaves the thread's options as it found them), C13_observed (every hook observation equals the options of the innermost enclosing extraction), C13_child_guard, C13_stub*, C13_fill_*, and C13_threads (frame rule: under every interleaving of any number of threads each thread's option cell and read history equal its solo run). The model is tied to /repo by executing generated call trees and forced thread interleavings against the real API and diffing hook-visible observations with the model's.",
         "note": "Theorems are about the model; agreement model<->code is measured on generated trees (exhaustive small family + random, depth<=4) and 2-4 real threads under forced schedules at hook-action granularity. Preemption inside push() itself is covered only by the frame-rule theorem plus CPython's threading.local semantics (assumed).",
     }
     assumptions = [
@@ -455,6 +469,10 @@ class C13(PropCheck):
                 out.append({"k": "tree", "tree": ["extract", not a, b, [[["extract", a, not b, [["observe"]], via], "observe"]]]})
         for _ in range(n // 3):
             out.append({"k": "tree", "tree": gen_spelled(rng, rng.randint(1, 3))})
+        # threads started from hooks under copy_context().run: outside any extraction
+        for a, b in itertools.product(B, B):
+            out.append({"k": "tree", "tree": ["extract", a, b, [["observe", "spawn", ["child", True, [["spawn", "observe"]]]]]]})
+            out.append({"k": "tree", "tree": ["extract", a, b, [[["fill", ["spawn", "observe"]], ["extract", not a, not b, [["spawn"]]]]]]})
         # one and the same task object asked about from nested levels and (below) from several threads at once
         for a, b in itertools.product(B, B):
             out.append({"k": "tree", "tree": ["extract", a, True, [[["childsame", True, [[["childsame", True, [["observe"]]], "observe"]]], "observe"]]]})
@@ -550,6 +568,8 @@ class C13(PropCheck):
         return " ## ".join(str(r) for r in results)
 
     def canon(self, case, real):
+        if isinstance(real, str) and "spawn(" in real:
+            return " ".join(tok for tok in real.split(" ") if not tok.startswith("spawn("))
         return real
 
     def model_line(self, case):
@@ -564,6 +584,11 @@ class C13(PropCheck):
     def oracle(self, case, real) -> Optional[str]:
         if not isinstance(real, str):
             return None
+        bad = [tok for tok in real.replace("#", " ").split(" ") if tok.startswith("spawn(") and tok != "spawn(N,N)"]
+        if bad:
+            return (f"a thread started from a hook with a copy of the caller's contextvars context sees extraction options {bad[0][5:]}: "
+                    f"the options belong to the extracting thread, a new thread is outside any extraction")
+        real = self.canon(case, real)
         if real.startswith("NONDETERMINISTIC"):
             return "per-thread observations depend on the interleaving: " + real[:300]
         if case["k"] == "threads":
